@@ -4,6 +4,9 @@ import json, os, subprocess, sys
 ROOT = os.path.dirname(os.path.dirname(os.path.abspath(__file__)))
 
 CLAIMED = {
+ "C13": ("exploration", "property-based testing (proptest) + exhaustive small-parameter universe against an independently coded validity predicate, big-integer definitions of the precomputed constants and cross-context identifier agreement",
+         "Generated-input search over every kind of parameter object the builder lets through (invalid schemes and degrees, composite / duplicate / even / oversized moduli, inadmissible plain moduli, standard security levels, both flags) plus the full universe N in {2,4,8} x moduli <= 24 (thorough 64). HeContext::new must never panic; parameters_set must imply the mathematical preconditions on every level; rejected sets must carry a specific error; accepted chains are checked for link structure, prefix moduli, constants (Q, Q div t, Q mod t, thresholds, increments) against big integers, qualifier flags, identifier equality across independently built contexts and collision freedom; the moduli generators are checked with a deterministic primality test. One known finding (randomized acceptance for composite moduli = 1 mod 2N) is reported as KNOWN-FINDING and excluded by construction.",
+         "Trusted: refmath (deterministic Miller-Rabin), BigU. Only the soundness direction is asserted for arbitrary objects.", "DESIGN.md §6 C13"),
  "C12": ("exploration", "property-based testing (proptest): CKKS plaintexts decoded by an independent route (per-prime inverse NTT + own CRT) and compared with exact roundings / a naive canonical embedding; refusal oracle",
          "Generated-input search over chains of 1..19 primes, every level, five entry points, scales with non-trivial mantissas from 2^0 to 2^(log Q - 2) so that scaled magnitudes land below 2^64, in 2^64..2^128 and above 2^128, both signs, imaginary parts, integers above and below each prime, lists of length 0..N. The plaintext is brought back to one centered integer vector by the oracle's own CRT and compared exactly (integer, single-real and coefficient-list paths) or within 1/2 + double-precision error of a compensated naive inverse embedding (vector paths); decoding must return the input within the analysed tolerance; inadmissible scales and oversized inputs must be refused. Two pinned defects were found this way and fixed.",
          "Trusted: BigU/BigI, f64 reference embedding with Kahan summation; inputs within 3 bits of the modulus size are not judged (either outcome allowed).", "DESIGN.md §6 C12"),
